@@ -26,6 +26,63 @@ type Case struct {
 	M       [][]int `json:"m"`
 	Open    int     `json:"open,omitempty"`
 	Ill     string  `json:"ill,omitempty"` // C09 ill-typed call kind
+	// How the matrix reaches the aligner: "" M itself; "padded" M embedded in a matrix two rows and
+	// columns larger than the alphabet (legal; the extra cells hold 55); "rewritten" a matrix value that
+	// earlier alignments of the run used with other contents, rewritten in place (a parameter sweep).
+	Handed string `json:"handed,omitempty"`
+	use    [][]int
+}
+
+// handed returns the matrix value given to the aligner.
+func (k Case) handed() [][]int {
+	switch {
+	case k.use != nil:
+		return k.use
+	case k.Handed == "padded":
+		return padded(k.M)
+	}
+	return k.M
+}
+
+func padded(m [][]int) [][]int {
+	n := len(m) + 2
+	out := make([][]int, n)
+	for i := range out {
+		out[i] = make([]int, n)
+		for j := range out[i] {
+			if i < len(m) && j < len(m[i]) {
+				out[i][j] = m[i][j]
+			} else {
+				out[i][j] = 55
+			}
+		}
+	}
+	return out
+}
+
+// scratchMatrices are matrix values rewritten in place from one matrix of the enumeration to the next.
+var scratchMatrices = func() chan [][]int {
+	ch := make(chan [][]int, 16)
+	for i := 0; i < 16; i++ {
+		ch <- nil
+	}
+	return ch
+}()
+
+// rewritten returns a matrix value with the contents of m whose backing arrays were used, with other
+// contents, by an earlier matrix of the same size; give it back with scratchMatrices <- w.
+func rewritten(m [][]int) [][]int {
+	w := <-scratchMatrices
+	if len(w) != len(m) {
+		w = make([][]int, len(m))
+		for i := range w {
+			w[i] = make([]int, len(m[i]))
+		}
+	}
+	for i := range m {
+		copy(w[i], m[i])
+	}
+	return w
 }
 
 var aligners = []string{"NW", "SW", "Fitted", "NWAffine", "SWAffine", "FittedAffine"}
@@ -70,17 +127,17 @@ func alpha(def string) alphabet.Alphabet {
 func mkAligner(k Case) align.Aligner {
 	switch k.Aligner {
 	case "NW":
-		return align.NW(k.M)
+		return align.NW(k.handed())
 	case "SW":
-		return align.SW(k.M)
+		return align.SW(k.handed())
 	case "Fitted":
-		return align.Fitted(k.M)
+		return align.Fitted(k.handed())
 	case "NWAffine":
-		return align.NWAffine{Matrix: k.M, GapOpen: k.Open}
+		return align.NWAffine{Matrix: k.handed(), GapOpen: k.Open}
 	case "SWAffine":
-		return align.SWAffine{Matrix: k.M, GapOpen: k.Open}
+		return align.SWAffine{Matrix: k.handed(), GapOpen: k.Open}
 	case "FittedAffine":
-		return align.FittedAffine{Matrix: k.M, GapOpen: k.Open}
+		return align.FittedAffine{Matrix: k.handed(), GapOpen: k.Open}
 	}
 	panic("aligner " + k.Aligner)
 }
@@ -459,6 +516,16 @@ func run(c *enum.Ctx, prop string) {
 	enum.Parallel(len(mats), func(mi int) {
 		M := mats[mi]
 		nt := enum.NontrivialSet{}
+		// a third of the matrices reach the aligners in a value rewritten in place, a fifth padded
+		var use [][]int
+		handedAs := ""
+		switch {
+		case mi%3 == 0:
+			use, handedAs = rewritten(M), "rewritten"
+			defer func() { scratchMatrices <- use }()
+		case mi%5 == 1:
+			handedAs = "padded"
+		}
 		for _, al := range aligners {
 			ops := []int{0}
 			if affineOf(al) {
@@ -467,7 +534,7 @@ func run(c *enum.Ctx, prop string) {
 			for _, op := range ops {
 				for _, r := range words {
 					for _, q := range words {
-						k := Case{Aligner: al, R: r, Q: q, Letters: def, M: M, Open: op}
+						k := Case{Aligner: al, R: r, Q: q, Letters: def, M: M, Open: op, Handed: handedAs, use: use}
 						c.Doing(mi, k)
 						c.Eval()
 						fs := evaluate(k)
@@ -486,6 +553,36 @@ func run(c *enum.Ctx, prop string) {
 	})
 	_ = evals
 	_ = nontriv
+	// a parameter sweep on ONE goroutine: a single matrix value is rewritten in place from one matrix
+	// to the next and every aligner is applied again at once (whatever an aligner remembers about a
+	// matrix value it has seen must not survive a change of its contents)
+	{
+		var sweepWords []string
+		enum.Strings(def[1:], 1, 3, func(s []byte) {
+			if len(s) < 3 || s[0] != s[1] {
+				sweepWords = append(sweepWords, string(s))
+			}
+		})
+		w := make([][]int, len(def))
+		for i := range w {
+			w[i] = make([]int, len(def))
+		}
+		for mi := 0; mi < len(mats); mi += 7 {
+			for i := range w {
+				copy(w[i], mats[mi][i])
+			}
+			for _, al := range aligners {
+				for _, r := range sweepWords {
+					for _, q := range sweepWords {
+						k := Case{Aligner: al, R: r, Q: q, Letters: def, M: mats[mi], Open: -1, Handed: "rewritten", use: w}
+						c.Doing(0, k)
+						c.Eval()
+						report(c, prop, k, evaluate(k))
+					}
+				}
+			}
+		}
+	}
 	// four-letter alphabet, short sequences
 	def4 := "-acg"
 	var words4 []string
